@@ -141,10 +141,25 @@ func genLines(n int, coords string, seed uint64) []*sdf.Line2 {
 				pool = append(pool, l[k])
 			}
 		}
+		switch r.Intn(12) {
+		case 0:
+			l[1].Y = l[0].Y // horizontal
+		case 1:
+			l[1].X = l[0].X // vertical
+		case 2:
+			l[1] = l[0] // a point
+		}
 		if i > 0 && r.Intn(16) == 0 {
 			l = *out[r.Intn(i)]
 		}
 		out[i] = &l
+	}
+	if n > 0 && r.Intn(10) == 0 { // a drawing entirely in the negative quadrant
+		for _, l := range out {
+			for k := 0; k < 2; k++ {
+				l[k].X, l[k].Y = -math.Abs(l[k].X)-1, -math.Abs(l[k].Y)-1
+			}
+		}
 	}
 	return out
 }
